@@ -1,6 +1,59 @@
-"""C06 B layer: the generated-project shadow (shadows/project.py) - bounded, never counted as proved."""
-from shadows.project import run_shadow
+"""C06 bounded layers (never counted as proved):
+  B  the generated-project shadow (shadows/project.py);
+  B  directed fault cases through the real CLI (fake git): a pattern that matches nowhere while its sibling matches
+     twice, a later file without a match, a later file missing - v2 and legacy patterns, commit on and off: the
+     update must fail and leave every file and the repository untouched."""
+from shadows.project import run_shadow, plain_scenario, check_scenario
+
+TWICE = dict(
+    files={"src/mod.py": ["# module", '__version__ = "\x01"', "tail"], "notes.txt": ["notes", "release \x01 here", "occurrence removed", "release \x01 here (again)"]},
+    occ={"src/mod.py": [(1, "quoted")], "notes.txt": [(1, "version"), (3, "version")]},
+)
+CASES = []
+for _pattern in ("MAJOR.MINOR.PATCH", "{semver}"):
+    for _commit in (True, False):
+        base = dict(pattern=_pattern, commit=_commit, tag=_commit)
+        CASES.append(("one pattern matches twice, its sibling nowhere", dict(base, fault="nomatch_one", fault_file="notes.txt", **TWICE)))
+        CASES.append(("second file has no match", dict(base, fault="nomatch", fault_file="notes.txt")))
+        CASES.append(("second file is missing", dict(base, fault="missing", fault_file="notes.txt")))
+        CASES.append(("first file has no match", dict(base, fault="nomatch", fault_file="src/mod.py")))
+
+
+def fault_case(i):
+    name, over = CASES[i]
+    r = check_scenario(0, sc=plain_scenario(**over))
+    bad = {k: v for k, v in r.items() if k in ("C06", "C13") or k == "_error"}
+    if not bad and r.get("_rc") == 0:
+        bad = {"C06": "update exited 0 although a configured pattern has no occurrence / a configured file is missing"}
+    return f"{name} ({over['pattern']}, commit={over['commit']}): {bad}" if bad else None
+
+
+def replay_fault(i):
+    return fault_case(i) is None
 
 
 def run(tier="quick", seed=0):
-    return [run_shadow("C06", tier, seed)]
+    out = [run_shadow("C06", tier, seed)]
+    bad = []
+    for i in range(len(CASES)):
+        try:
+            r = fault_case(i)
+        except Exception as e:  # noqa
+            r = f"exception {type(e).__name__}: {e}"
+        if r is not None:
+            bad.append((i, r))
+    out.append(
+        dict(
+            name="C06.directed_faults.failed_update_leaves_files_and_repository_untouched",
+            kind="B",
+            verdict="held" if not bad else "refuted",
+            cases=len(CASES),
+            distinct=len(CASES),
+            bound=f"{len(CASES)} directed fault cases (sibling pattern unmatched while another matches twice; later/first file without match; later file missing) x v2/legacy pattern x commit on/off; real CLI, fake git",
+            witness=[dict(case=CASES[i][0], problem=r) for i, r in bad[:3]],
+            observed=bad[0][1] if bad else None,
+            sample=[c[0] for c in CASES[:3]],
+            python_replay=(dict(module="checks.c06", function="replay_fault", args=[bad[0][0]]) if bad else None),
+        )
+    )
+    return out
